@@ -3782,6 +3782,19 @@ class DecVarSub(VarSub):
         self.dvars = dvars
         self.fixed = fixed
 
+    def __getitem__(self, item):
+
+        # a slice of a slice is a slice of the same decision array: it keeps
+        # the events and the dependencies of the array
+        indices = self.indices[item]
+
+        fixed = self.dvars.fixed
+        if self.dvars.rand_adapt is not None:
+            rows = np.array(indices).flatten()
+            fixed = fixed and not self.dvars.rand_adapt[rows].any()
+
+        return DecVarSub(self.dro_model, self.dvars, indices, fixed=fixed)
+
     def __repr__(self):
 
         var_name = '' if not self.name else 'slice of {}: '.format(self.name)
